@@ -39,7 +39,7 @@ TableVerdict(t, a) ==
 
 Judge(e) ==
   IF Has(e, "raise") THEN "Raised:" \o e.stage
-  ELSE CASE e.op \in {"rt", "tsv_read"} -> TableVerdict(e.table, e.after)
+  ELSE CASE e.op \in {"rt", "tsv_read", "json_read", "xml_read"} -> TableVerdict(e.table, e.after)
          [] e.op = "ask" -> IF e.after = e.value THEN "ok" ELSE "BooleanAgrees"
          [] e.op = "csv" ->
               IF e.header # e.table.vars THEN "VarsAgree"
